@@ -71,3 +71,241 @@ package engine
 //@ func posI
 //@   property C07
 //@   ensures[identity] err == nil && result == x
+
+//@ ---------------------------------------------------------------- float kernels (C07)
+
+//@ type Float invariant[finite] finite(self)
+
+//@ extern math.Floor
+//@   pure
+//@   ensures same(result, fp.rti(RTN, x))
+//@ extern math.Ceil
+//@   pure
+//@   ensures same(result, fp.rti(RTP, x))
+//@ extern math.Trunc
+//@   pure
+//@   ensures same(result, fp.rti(RTZ, x))
+//@ extern math.Round
+//@   pure
+//@   ensures same(result, fp.rti(RNA, x))
+//@ extern math.Abs
+//@   pure
+//@   ensures same(result, fp.abs(x))
+//@ extern math.IsInf
+//@   pure
+//@   ensures sign == 0 ==> result == fp.isInf(f)
+//@ extern math.IsNaN
+//@   pure
+//@   ensures result == fp.isNaN(f)
+
+//@ spec fun fltRes(R float64, nz bool, r Float, e error) bool =
+//@     (e == nil ==> same(r, R) && finite(R)) &&
+//@     (e == exceptionalValueFloatOverflow ==> fp.isInf(R)) &&
+//@     (e == exceptionalValueUnderflow ==> R == 0.0 && nz) &&
+//@     (e == nil || e == exceptionalValueFloatOverflow || e == exceptionalValueUnderflow)
+//@ spec fun divRes(x float64, y float64, r Float, e error) bool =
+//@     ((e == exceptionalValueZeroDivisor) <==> y == 0.0) && (y != 0.0 ==> fltRes(x / y, x != 0.0, r, e))
+//@ spec fun inI64f(m float64) bool = -0x1p63 <= m && m < 0x1p63
+//@ spec fun f2iRes(m float64, r Integer, e error) bool =
+//@     ((e == nil) <==> inI64f(m)) && (e == nil ==> r == fp.toInt(m)) && (e != nil ==> e == exceptionalValueIntOverflow)
+
+//@ func addF
+//@   property C07
+//@   ensures[ieee] fltRes(x + y, false, result, err)
+
+//@ func subF
+//@   property C07
+//@   ensures[ieee] fltRes(x - y, false, result, err)
+
+//@ func mulF
+//@   property C07
+//@   ensures[ieee] fltRes(x * y, x != 0.0 && y != 0.0, result, err)
+
+//@ func divF
+//@   property C07
+//@   ensures[ieee] divRes(x, y, result, err)
+
+//@ func negF
+//@   property C07
+//@   ensures[ieee] same(result, -x)
+
+//@ func absF
+//@   property C07
+//@   ensures[ieee] same(result, fp.abs(x))
+
+//@ func signF
+//@   property C07
+//@   ensures[sign] (x > 0.0 ==> result == 1.0) && (x < 0.0 ==> result == -1.0) && (x == 0.0 ==> result == 0.0)
+
+//@ func intPartF
+//@   property C07
+//@   ensures[truncation] result == fp.rti(RTZ, x)
+
+//@ func fractPartF
+//@   property C07
+//@   ensures[fraction] same(result, x - fp.rti(RTZ, x)) || (result == 0.0 && x - fp.rti(RTZ, x) == 0.0)
+
+//@ func posF
+//@   property C07
+//@   ensures[identity] err == nil && same(result, x)
+
+//@ func floatItoF
+//@   property C07
+//@   ensures[convert] same(result, f64(n))
+
+//@ func floatFtoF
+//@   property C07
+//@   ensures[identity] same(result, x)
+
+//@ func floorFtoI
+//@   property C07
+//@   ensures[exact-or-overflow] f2iRes(fp.rti(RTN, x), result, err)
+
+//@ func truncateFtoI
+//@   property C07
+//@   ensures[exact-or-overflow] f2iRes(fp.rti(RTZ, x), result, err)
+
+//@ func roundFtoI
+//@   property C07
+//@   ensures[exact-or-overflow] f2iRes(fp.rti(RNA, x), result, err)
+
+//@ func ceilingFtoI
+//@   property C07
+//@   ensures[exact-or-overflow] f2iRes(fp.rti(RTP, x), result, err)
+
+//@ ---------------------------------------------------------------- mixed-mode kernels (C07)
+
+//@ func addFI
+//@   property C07
+//@   ensures[ieee] fltRes(x + f64(n), false, result, err)
+
+//@ func addIF
+//@   property C07
+//@   ensures[ieee] fltRes(f64(n) + x, false, result, err)
+
+//@ func subFI
+//@   property C07
+//@   ensures[ieee] fltRes(x - f64(n), false, result, err)
+
+//@ func subIF
+//@   property C07
+//@   ensures[ieee] fltRes(f64(n) - x, false, result, err)
+
+//@ func mulFI
+//@   property C07
+//@   ensures[ieee] fltRes(x * f64(n), x != 0.0 && n != 0, result, err)
+
+//@ func mulIF
+//@   property C07
+//@   ensures[ieee] fltRes(f64(n) * x, x != 0.0 && n != 0, result, err)
+
+//@ func divFI
+//@   property C07
+//@   ensures[ieee] divRes(x, f64(n), result, err)
+
+//@ func divIF
+//@   property C07
+//@   ensures[ieee] divRes(f64(n), x, result, err)
+
+//@ func divII
+//@   property C07
+//@   ensures[ieee] divRes(f64(n), f64(m), result, err)
+
+//@ ---------------------------------------------------------------- comparison kernels (C07)
+
+//@ func eqF
+//@   property C07
+//@   ensures[numeric] result == (x == y)
+
+//@ func eqI
+//@   property C07
+//@   ensures[numeric] result == (m == n)
+
+//@ func eqFI
+//@   property C07
+//@   ensures[numeric] result == (x == f64(n))
+
+//@ func eqIF
+//@   property C07
+//@   ensures[numeric] result == (f64(n) == y)
+
+//@ func neqF
+//@   property C07
+//@   ensures[numeric] result == (x != y)
+
+//@ func neqI
+//@   property C07
+//@   ensures[numeric] result == (m != n)
+
+//@ func neqFI
+//@   property C07
+//@   ensures[numeric] result == (x != f64(n))
+
+//@ func neqIF
+//@   property C07
+//@   ensures[numeric] result == (f64(n) != y)
+
+//@ func lssF
+//@   property C07
+//@   ensures[numeric] result == (x < y)
+
+//@ func lssI
+//@   property C07
+//@   ensures[numeric] result == (m < n)
+
+//@ func lssFI
+//@   property C07
+//@   ensures[numeric] result == (x < f64(n))
+
+//@ func lssIF
+//@   property C07
+//@   ensures[numeric] result == (f64(n) < y)
+
+//@ func leqF
+//@   property C07
+//@   ensures[numeric] result == (x <= y)
+
+//@ func leqI
+//@   property C07
+//@   ensures[numeric] result == (m <= n)
+
+//@ func leqFI
+//@   property C07
+//@   ensures[numeric] result == (x <= f64(n))
+
+//@ func leqIF
+//@   property C07
+//@   ensures[numeric] result == (f64(n) <= y)
+
+//@ func gtrF
+//@   property C07
+//@   ensures[numeric] result == (x > y)
+
+//@ func gtrI
+//@   property C07
+//@   ensures[numeric] result == (m > n)
+
+//@ func gtrFI
+//@   property C07
+//@   ensures[numeric] result == (x > f64(n))
+
+//@ func gtrIF
+//@   property C07
+//@   ensures[numeric] result == (f64(n) > y)
+
+//@ func geqF
+//@   property C07
+//@   ensures[numeric] result == (x >= y)
+
+//@ func geqI
+//@   property C07
+//@   ensures[numeric] result == (m >= n)
+
+//@ func geqFI
+//@   property C07
+//@   ensures[numeric] result == (x >= f64(n))
+
+//@ func geqIF
+//@   property C07
+//@   ensures[numeric] result == (f64(n) >= y)
+
